@@ -28,7 +28,8 @@ var memTails = []string{".5", "\"", "5", "\\", "]", "}", "e5", ",1", "x\"", "\\\
 var (
 	memJSONAPIs = []string{"valid", "validstd", "skip", "get", "getf", "getk", "getfk", "geti", "getfi", "getki",
 		"unm_any", "unm_anystd", "unm_anynum", "unm_struct", "unm_structstd", "unm_map", "unm_sl", "unm_bytes",
-		"node_load", "node_iface", "ast_loads", "unm_raw", "mar_raw", "unm_ints"}
+		"node_load", "node_iface", "ast_loads", "unm_raw", "mar_raw", "unm_ints", "unm_arr2", "unm_arr1s", "unm_arr0",
+		"unm_starr", "ast_parse", "node_loadall"}
 	memNumAPIs = []string{"unm_int", "unm_i8", "unm_u64", "unm_f64", "unm_f32", "unm_num", "unm_any", "unm_anynum",
 		"unm_anystd", "skip", "valid", "getf", "get", "mar_num", "unm_raw", "node_iface", "ast_loads", "unm_bytes"}
 	memStrAPIs = []string{"unm_str", "unm_strstd", "unm_any", "unm_anystd", "skip", "getf", "get", "valid", "validstd",
@@ -470,6 +471,60 @@ func init() {
 		}
 	})
 
+	// Go-side scanners (ast/decode.go skipBlank & co., the ast parser): documents cut after every structural
+	// prefix, optionally followed by blanks, flush against the unmapped page (offset 0) - and, by the `pre`
+	// placement of the op, flush behind one.
+	registerGen("c05.goscan", func(g *Gen) {
+		apis := []string{"ast_loads", "ast_parse", "ast_parseobj", "node_loadall", "node_getk", "node_idx", "node_each"}
+		more := []string{"node_load", "node_iface", "get", "getk", "geti", "getki", "mar_raw", "valid", "skip", "utf8v", "utf8c"}
+		blanks := []string{"", " ", "\r\n", "\t  ", "                                 "}
+		bases := []string{
+			`{"a": [1, {"b": "x\\\"y", "c": [true, null, -0.5e3]}, "z"], "d": {}, "e": [], "f": "é"}`,
+			`[[ {"a":[]} ,[  ]], "s", 12, {"a" : {"a":[1,2]}}, false]`,
+			`{ "a" : [ 1 , 2 ] , "b" : { } }`,
+			`"str\\n"`, `-12.5e+3`, `true`, `null`,
+		}
+		emit := func(api string, doc string) {
+			off := 0
+			if g.R.Intn(8) == 0 {
+				off = 1 + g.R.Intn(3)
+			}
+			g.Emit("place", api, hexArg([]byte(doc)), itoa(off), hexArg([]byte(memPick(g, memTails))))
+		}
+		structural := func(c byte) bool {
+			return c == '[' || c == '{' || c == ',' || c == ':' || c == ']' || c == '}' || c == '"' || c == ' '
+		}
+		n := 0
+		for bi, b := range bases {
+			for i := 1; i <= len(b); i++ {
+				if bi > 0 && i < len(b) && !structural(b[i-1]) {
+					continue
+				}
+				for k, api := range apis {
+					bl := blanks[(i+k)%len(blanks)]
+					emit(api, b[:i])
+					if bl != "" {
+						emit(api, b[:i]+bl)
+					}
+					n += 2
+				}
+				emit(more[i%len(more)], b[:i])
+			}
+			if g.Tier != "thorough" && n > g.N {
+				break
+			}
+		}
+		for i := 0; i < g.N/4; i++ {
+			doc := memJSON(g, 3)
+			cut := g.R.Intn(len(doc) + 1)
+			for cut > 0 && cut < len(doc) && !structural(doc[cut-1]) && g.R.Intn(3) != 0 {
+				cut--
+			}
+			all := append(append([]string{}, apis...), more...)
+			emit(memPick(g, all), doc[:cut]+blanks[g.R.Intn(len(blanks))])
+		}
+	})
+
 	registerGen("c13.plain", func(g *Gen) {
 		var u8 [8]byte
 		emitF64 := func(bits uint64) {
@@ -490,6 +545,19 @@ func init() {
 		}
 		for _, v := range []uint64{0, 1, 9, 10, 99, 100, 1<<63 - 1, 1 << 63, ^uint64(0), 9999999999, 10000000000} {
 			emitI(v)
+		}
+		// JSON arrays longer than the Go array they fill (native skip_array, only reached from JIT code), and the
+		// other stubs that only generated code calls (skip_one for unknown fields / RawMessage, skip_number for json.Number)
+		memArrDocs := []string{`[]`, `[1]`, `[1,2]`, `[1,2,3]`, `[1,2,3,4,5,6,7]`, `[1,2,[3,[4]],{"a":[5]},"]"]`, `[ 1 , 2 , 3 ]`,
+			`["a"]`, `["a","b","c\\\"]"]`, `[1,2,3`, `[1,2,3,]`, `[1,2,3}`, `[1,2,"x]`, `[1,2,{"a":1]`,
+			`{"a":[1.5,2,3,4],"b":7,"c":[[1,2],[3]]}`, `{"a":[1,2,3,{"x":[]}],"b":-1}`, `{"c":[[{"k":"v"},2,3],4],"b":2}`,
+			`{"a":[1,2,3`, `{"unknown":[1,2,{"a":"}"}],"b":3,"a":[0,1,2,3e5]}`}
+		for i, d := range memArrDocs {
+			for _, api := range []string{"unm_arr2", "unm_arr1s", "unm_arr0", "unm_starr", "unm_ints", "unm_sl", "unm_struct", "unm_num", "unm_raw"} {
+				g.Emit("plain", api, hexArg([]byte(d)))
+			}
+			g.Emit("plain", "unm_arr2", hexArg([]byte(memSpaces(g)+d+memSpaces(g))))
+			_ = i
 		}
 		// Marshal into caller-supplied buffers of many capacities (C13: the capacity must not leak into the output)
 		memEncPayloads := [][]byte{{0xfb}, {0xfb, 0xff}, {0xfb, 0xff, 0xbe}, {0xff, 0xff, 0xff, 0xfe}, {0x3e, 0x3f}, {0},
